@@ -68,6 +68,22 @@ def mentions(f, consts):
     return False
 
 
+def has_exists_or_forall(e):
+    stack = [e]
+    seen = set()
+    while stack:
+        t = stack.pop()
+        if z3.is_quantifier(t):
+            return True
+        i = t.get_id()
+        if i in seen:
+            continue
+        seen.add(i)
+        if z3.is_app(t):
+            stack.extend(t.children())
+    return False
+
+
 def _flatten_and(e, out):
     if z3.is_app(e) and e.decl().kind() == z3.Z3_OP_AND:
         for c in e.children():
@@ -180,12 +196,83 @@ def build_full(ob, str_axioms):
     return s.to_smt2()
 
 
-def build_inst(ob, str_axioms):
+def _mentions_decl(e, prefixes):
+    stack = [e]
+    seen = set()
+    while stack:
+        t = stack.pop()
+        i = t.get_id()
+        if i in seen:
+            continue
+        seen.add(i)
+        if z3.is_quantifier(t):
+            stack.append(t.body())
+        elif z3.is_app(t):
+            nm = t.decl().name()
+            if any(nm.startswith(p) for p in prefixes):
+                return True
+            stack.extend(t.children())
+    return False
+
+
+def slice_obligation(ob):
+    """a weaker obligation (sound for unsat): hypotheses about finite sums are dropped when the goal does not mention one;
+    hypotheses about rounding are dropped when the goal mentions neither rounding nor arithmetic-free ... (kept simple)"""
+    from .state import Obligation
+    if _mentions_decl(ob.goal, ("msum_", "lamf")):
+        return None
+    hyps = [h for h in ob.hyps if not _mentions_decl(h, ("msum_", "lamf"))]
+    if len(hyps) == len(ob.hyps):
+        return None
+    return Obligation(ob.name, hyps, ob.goal, ob.meta)
+
+
+def rewrite_ref_equalities(fs):
+    """replace `big` by `small` for every top-level ground equation big == small between uninterpreted-sort terms
+    (e.g. self._orders._items[order._id] == order): the hand-instantiated axioms match terms syntactically"""
+    subs = []
+    for f in fs:
+        if z3.is_app(f) and f.decl().kind() == z3.Z3_OP_EQ:
+            a, b = f.arg(0), f.arg(1)
+            if a.sort().kind() == z3.Z3_UNINTERPRETED_SORT and not has_exists_or_forall(f):
+                la, lb = len(a.sexpr()), len(b.sexpr())
+                if la == lb:
+                    continue
+                big, small = (a, b) if la > lb else (b, a)
+                if z3.is_app(big) and big.num_args() > 0:
+                    subs.append((big, small))
+    if not subs:
+        return fs
+    subs.sort(key=lambda p: -len(p[0].sexpr()))
+    out = []
+    for f in fs:
+        g = f
+        for _ in range(2):
+            g2 = z3.substitute(g, *subs)
+            if g2.eq(g):
+                break
+            g = g2
+        out.append(g)
+    return out
+
+
+def build_inst(ob, str_axioms, lite=False):
     """the same query with the universal hypotheses over uninterpreted sorts replaced by ground instances
-    (sound for unsat; sat is a *candidate* counter-model).  Returns (smt2, complete)."""
-    allf = _all_formulas(ob, str_axioms)
+    (sound for unsat; sat is a *candidate* counter-model).  Returns (smt2, complete).
+    lite: without the rounding / grid axiom instances (still sound for unsat)."""
+    if lite:
+        fs = list(ob.hyps) + [_neg(ob.goal)]
+        allf = fs + list(str_axioms) + prelude.instantiate(fs, lite=True)
+    else:
+        allf = _all_formulas(ob, str_axioms)
     qf_fs, complete = instantiate_quantifiers(allf)
-    extra2 = prelude.instantiate(qf_fs)
+    qf_fs = rewrite_ref_equalities(qf_fs)
+    extra2 = prelude.instantiate(qf_fs, lite=lite)
+    # the prelude instances (sum axioms) skolemise new constants: instantiate the hypotheses once more over the larger pool
+    if any(has_exists_or_forall(e) for e in extra2):
+        qf_fs, complete = instantiate_quantifiers(allf + extra2)
+        qf_fs = rewrite_ref_equalities(qf_fs)
+        extra2 = prelude.instantiate(qf_fs, lite=lite)
     s2 = z3.Solver()
     for f in qf_fs + extra2:
         s2.add(f)
@@ -210,6 +297,21 @@ def decide(ob, str_axioms, timeout_ms=20000, use_cvc5=True, name=None):
     # NB: a `sat` of the full query is not final -- prelude axioms are instantiated per ground term, and terms under a
     # quantifier only become ground in the instantiated query below.
     full_sat = r if r[0] == "sat" else None
+    sl = slice_obligation(ob)
+    if sl is not None:
+        sq, _c = build_inst(sl, str_axioms)
+        if len(sq) < 25000000:
+            rs = _solve_z3(sq, min(timeout_ms, 20000))
+            tried.append(("z3-inst-sliced", rs[0], rs[1] if isinstance(rs[1], float) else 0.0))
+            if rs[0] == "unsat":
+                return (name, "unsat", "z3-inst", rs[1], None, tried, full)
+    # small instantiated query first: no rounding / grid axioms (enough for most structural obligations)
+    lite, _c = build_inst(ob, str_axioms, lite=True)
+    if len(lite) < 25000000:
+        rl = _solve_z3(lite, min(timeout_ms, 15000))
+        tried.append(("z3-inst-lite", rl[0], rl[1] if isinstance(rl[1], float) else 0.0))
+        if rl[0] == "unsat":
+            return (name, "unsat", "z3-inst", rl[1], None, tried, full)
     inst, complete = build_inst(ob, str_axioms)
     rq = ("skipped", 0.0, None)
     if len(inst) < 25000000:
